@@ -104,8 +104,149 @@ def mechanism(ctx):
     return graphs
 
 
+def mem_level():
+    """DEBUG_MEM as the specification states it (one source for the activation rule used by the configuration half)."""
+    txt = open(os.path.join(os.path.dirname(os.path.dirname(os.path.abspath(__file__))), "spec", "MemTrack.tla")).read()
+    return int(re.search(r"^MemLevel\s*==\s*(\d+)", txt, re.M).group(1))
+
+
+def reference_nullness(g):
+    """Result NULL-ness per macro shape, read off the transitions TLC generated (ret = 0 is NULL)."""
+    ref = {}
+    for _, _, e in g.edges:
+        op, a = e["op"], e["args"]
+        if op == "malloc":
+            k = "malloc_0" if a[1] == 0 else "malloc_n"
+        elif op == "calloc":
+            k = "calloc_0" if a[1] * a[2] == 0 else "calloc_n"
+        elif op == "strdup":
+            k = "strdup"
+        elif op == "realloc" and (a[0] == 0 or e["pre"]["blocks"][a[0] - 1] == "live" if a[0] >= 0 else False):
+            k = "realloc_%s_%s" % ("null" if a[0] == 0 else "live", "0" if a[1] == 0 else "n")
+        else:
+            continue
+        ref.setdefault(k, set()).add(e["ret"] == 0)
+    amb = [k for k, v in ref.items() if len(v) != 1]
+    if amb or len(ref) != 9:
+        raise Broken("reference NULL-ness not a function of the shape: %s / %s" % (amb, sorted(ref)))
+    return {k: v.pop() for k, v in ref.items()}
+
+
+def run_exe(ctx, argv, timeout=600):
+    from vlib.replay import ASAN_OPTS
+    e = dict(os.environ, ASAN_OPTIONS=ASAN_OPTS, LC_ALL="C")
+    try:
+        r = subprocess.run(argv, capture_output=True, env=e, timeout=timeout, cwd=ctx.rundir)
+    except subprocess.TimeoutExpired:
+        return -9, "", "timeout"
+    return r.returncode, r.stdout.decode("latin-1"), r.stderr.decode("latin-1")
+
+
+def crash_sig(err):
+    from vlib.replay import asan_signature
+    return "%s@%s" % asan_signature(err)
+
+
+def macro_probe(ctx, g):
+    """MALLOC/CALLOC/REALLOC/FREE/STRDUP observed in builds with tracking compiled out and in, at several runtime levels."""
+    ml = mem_level()
+    ref = reference_nullness(g)
+    builds = [4, 5] if ctx.tier == "quick" else [0, 4, 5]
+    levels = [0, 5] if ctx.tier == "quick" else [0, 4, 5, 6]
+    shape_of = {"realloc_live_shrink": "realloc_live_n", "realloc_live_grow": "realloc_live_n"}
+    cells = 0
+    seen_cases = set()
+    for dbg in builds:
+        libdir, cflags = build.build_lib(ctx.repo, debug_level=dbg)
+        exe = build.build_harness("mem_macro_probe-d%d" % dbg, ["mem_macro_probe.c"], libdir, cflags)
+        for lv in levels:
+            active = dbg >= ml and lv >= ml
+            rc, out, err = run_exe(ctx, [exe, str(lv)])
+            rp = {"kind": "macro_probe", "debug": dbg, "level": lv}
+            if rc != 0:
+                ctx.report("macro-probe DEBUG=%d level=%d died/%s" % (dbg, lv, crash_sig(err) if rc > 0 else "rc%s" % rc),
+                           "macro probe died (rc=%s) with compile-time DEBUG=%d at runtime level %d: %s" % (rc, dbg, lv, err[-600:]), rp)
+                continue
+            for line in out.splitlines():
+                w = line.split()
+                case, f = w[0], dict(x.split("=") for x in w[1:])
+                seen_cases.add(case)
+                exp = {"table": "0"}
+                if case.startswith("free"):
+                    exp.update(nulled="1", rec="0")
+                    if case == "free_live":
+                        exp["released"] = "1"
+                else:
+                    isnull = ref[shape_of.get(case, case)]
+                    exp["null"] = "1" if isnull else "0"
+                    if case in ("malloc_n", "calloc_n", "strdup", "realloc_live_shrink", "realloc_live_grow"):
+                        exp["keep"] = "1"
+                    if case == "realloc_live_0":
+                        exp["released"] = "1"
+                    if case in ("realloc_live_shrink", "realloc_live_grow") and f["released"] != "-":
+                        exp["released"] = "1"
+                    if active and not isnull:
+                        exp.update(rec="1", size="1", line="1", file="1")
+                    else:
+                        exp.update(rec="0")
+                for k, v in sorted(exp.items()):
+                    cells += 1
+                    if f.get(k) != v:
+                        ctx.report("macro %s %s=%s expected %s [DEBUG%s%d level%s%d]" % (case, k, f.get(k), v, ">=" if dbg >= ml else "<", ml, ">=" if lv >= ml else "<", ml),
+                                   "%s with compile-time DEBUG=%d at runtime level %d: observed %s, reference says %s=%s" % (case, dbg, lv, line, k, v),
+                                   dict(rp, case=case, observed=line, expected=exp))
+            if dbg == builds[-1] and lv == levels[-1]:
+                ctx.sample({"macro_probe": {"debug": dbg, "level": lv, "lines": out.splitlines()[:4]}})
+    if len(seen_cases) != 12 and not ctx.violations:
+        raise Broken("macro probe produced %d cases, expected 12" % len(seen_cases))
+    ctx.add("macro_probe_cells", cells)
+    ctx.add("evaluations", cells)
+    ctx.cov["macro_probe"] = {"builds_DEBUG": builds, "runtime_levels": levels, "cases": len(seen_cases), "fields_compared": cells,
+                              "reference_nullness_from_tlc": {k: ("NULL" if v else "non-NULL") for k, v in sorted(ref.items())}}
+
+
+def object_workloads(ctx):
+    """Library with tracking compiled in (DEBUG=5) / out (DEBUG=4) under seeded object workloads."""
+    ml = mem_level()
+    quick = ctx.tier == "quick"
+    nprog, nops = (60, 300) if quick else (600, 400)
+    configs = [(5, 5), (5, 4), (4, 5)] if quick else [(5, 5), (5, 6), (5, 4), (5, 0), (4, 5), (0, 5)]
+    res = {}
+    for dbg, lv in configs:
+        active = dbg >= ml and lv >= ml
+        libdir, cflags = build.build_lib(ctx.repo, debug_level=dbg)
+        exe = build.build_harness("mem_objs-d%d" % dbg, ["mem_objs.c"], libdir, cflags)
+        argv = [exe, str(lv), "1" if active else "0", str(ctx.seed % 1000003), str(nprog), str(nops)]
+        rc, out, err = run_exe(ctx, argv)
+        rp = {"kind": "object_workload", "debug": dbg, "level": lv, "argv_tail": argv[1:]}
+        done = None
+        for line in out.splitlines():
+            w = line.split(" ", 4)
+            if w[0] == "X":
+                ctx.report("workload DEBUG=%d level=%d %s %s" % (dbg, lv, w[3], re.sub(r"\d+", "N", w[4] if len(w) > 4 else "")),
+                           "object workload (DEBUG=%d, runtime level %d) program %s op #%s %s: %s" % (dbg, lv, w[1], w[2], w[3], w[4] if len(w) > 4 else ""),
+                           dict(rp, program=int(w[1]), op_index=int(w[2])))
+            elif w[0] == "DONE":
+                done = [int(x) for x in line.split()[1:]]
+        if rc != 0 or done is None:
+            ctx.report("workload DEBUG=%d level=%d died/%s" % (dbg, lv, crash_sig(err)),
+                       "object workload died (rc=%s): %s" % (rc, err[-800:]), rp)
+            continue
+        res["DEBUG=%d,level=%d" % (dbg, lv)] = {"tracking_active": active, "programs": done[0], "ops": done[1], "table_checks": done[2],
+                                                "max_records_in_table": done[3]}
+        ctx.add("evaluations", done[2])
+        ctx.add("workload_table_checks", done[2])
+        if active and done[3] < 20:
+            raise Broken("object workload never filled the table (max %d records): vacuous" % done[3])
+    ctx.cov["object_workloads"] = res
+    ctx.sample({"object_workload": "mem_objs <level> <active> <seed> <programs> <ops>: random str/list/vector/map/mbuff operations; after every "
+                                   "operation table == ASan's live blocks of the library; empty at quiescence", "configs": sorted(res)})
+
+
 def run(ctx):
-    mechanism(ctx)
+    graphs = mechanism(ctx)
+    macro_probe(ctx, graphs[0][3])
+    object_workloads(ctx)
     ctx.cov["exhaustive"] = True
     ctx.cov["rule"] = ("every transition TLC generates for MemTrack in the bounded scope is executed once per (build, runtime level) "
                        "variant as the last step of a script whose prefix consists of already verified transitions; the tracker's "
@@ -117,5 +258,23 @@ def run(ctx):
 def replay(ctx, path):
     d = json.load(open(path))
     rp = d.get("replay") or {}
+    if rp.get("kind") in ("macro_probe", "object_workload"):
+        dbg, lv = rp["debug"], rp["level"]
+        libdir, cflags = build.build_lib(ctx.repo, debug_level=dbg)
+        if rp["kind"] == "macro_probe":
+            exe = build.build_harness("mem_macro_probe-d%d" % dbg, ["mem_macro_probe.c"], libdir, cflags)
+            rc, out, err = run_exe(ctx, [exe, str(lv)])
+            print(out + err[-1500:])
+            bad = [l for l in out.splitlines() if l.startswith(rp.get("case", "\0") + " ") and l != rp.get("observed")]
+            same = any(l == rp.get("observed") for l in out.splitlines())
+            print("REPRODUCED" if (same or rc != 0) else "not reproduced")
+            return 1 if (same or rc != 0) else 0
+        exe = build.build_harness("mem_objs-d%d" % dbg, ["mem_objs.c"], libdir, cflags)
+        argv = [exe] + rp["argv_tail"] + ([str(rp["program"])] if "program" in rp else [])
+        rc, out, err = run_exe(ctx, argv)
+        xs = [l for l in out.splitlines() if l.startswith("X ")]
+        print("\n".join(xs) + err[-1500:])
+        print("REPRODUCED" if (xs or rc != 0) else "not reproduced")
+        return 1 if (xs or rc != 0) else 0
     dbg = 5 if str(rp.get("variant", "")).startswith("d5") else None
     return objcheck.replay_file(harness(ctx, dbg), [], path, ctx.rundir, env={"MEM_QUIET": "1"} if dbg else None)
